@@ -106,7 +106,7 @@ check("C01", "model_checking",
       "variables and ancillas: D(s) >= M(convert(s)) when the penalty dominates the boolean-form coefficients, some ancilla extension "
       "with D = M, degree, labels via the mapping, result type, convert_solution = restriction; (b) hook H1 certificates of larger "
       "models (up to ~25 variables incl. ancillas) are validated step by step by spec/ReduceTrace.tla against the step machine.",
-      "truth tables for forms with <= 9 (10 thorough) variables; larger forms only via certificates + ReduceLocal; small integer / "
+      "truth tables for forms with <= 10 (11 thorough) variables; larger forms only via certificates + ReduceLocal; small integer / "
       "half-integer coefficients; refreshed models as the statement requires; trusted: TLC, record encoder, hook H1 (add-only)",
       "TLA+ step machine + local lemma checked by TLC; real reduced forms judged on full truth tables by TLC; real reduction "
       "certificates validated as traces by TLC", "DESIGN 3 C01")
@@ -182,7 +182,7 @@ check("C10", "exploration",
       "formulation variables: nothing lies below B*Opt, some state attains it and decodes to a feasible optimal solution, with strict "
       "weights every ground state does; problem-specific and inherited solve_bruteforce are feasible and optimal (all_solutions: exactly "
       "the optima). Ground states are computed by TLC, never by the repository's solver.",
-      "small instances only (encodings with <= 10 variables quick, 12 thorough; ~110 / 700 instances); weighted GraphPartitioning and "
+      "small instances only (encodings with <= 11 variables quick, 13 thorough, plus hand-picked 15-variable instances; ~300 / 1500 instances); weighted GraphPartitioning and "
       "SetCover instances beyond half-integer weights are not generated; trusted: TLC, the per-class decoders of the harness (which only "
       "translate the implementation's output into index sets)",
       "problem semantics written in TLA+; real encodings evaluated by TLC over all assignments", "DESIGN 3 C10")
@@ -205,7 +205,7 @@ check("C08", "model_checking",
       "feasible f-optimal assignment, the optimum is attained; solve_bruteforce() is feasible, valid and optimal; "
       "remove_ancilla_from_solution returns exactly the non-ancilla part. The design-level ingredients (PenaltyExact, Exact / "
       "NeverUndercut) are model-checked in C02/C03/C06/C01.",
-      "bounded: <= 3 problem labels, forms with <= 9 (11 thorough) variables incl. constraint and reduction ancillas, 130 / 900 scenarios; "
+      "bounded: <= 3 problem labels, forms with <= 10 (12 thorough) variables incl. constraint and reduction ancillas, 450 / 3000 scenarios; "
       "known finding F7 (constraint over a label without a term) is reported as KNOWN-FINDING; trusted: TLC, record encoder",
       "real penalised / reduced forms evaluated by TLC on every assignment against the constrained optimum computed in TLA+", "DESIGN 3 C08")
 
